@@ -17,13 +17,19 @@ VFeed(vv, cs, i) == IF i > Len(cs) THEN vv ELSE VFeed(VDo(vv, cs[i]), cs, i + 1)
 NormCmds(cs) == [i \in 1..Len(cs) |-> NormCmd(cs[i])]
 
 PInit == prog \in ProgSpace /\ m = InitM /\ v = InitV /\ cmds = <<>> /\ n = -1
+\* (a run the manual-level machine gives up on -- it does not end within its fuel -- is not
+\* followed on the implementation-level machine either: nothing would be compared)
 PEnter == /\ n = -1 /\ cmds' = NormCmds(LinesOf(prog))
-          /\ m' = Feed(InitM, cmds', 1) /\ v' = VFeed(InitV, cmds', 1) /\ n' = 0 /\ UNCHANGED prog
+          /\ m' = Feed(InitM, cmds', 1)
+          /\ v' = IF m'.mode = "oom" THEN VOom(InitV, "not followed") ELSE VFeed(InitV, cmds', 1)
+          /\ n' = 0 /\ UNCHANGED prog
 PCmd == /\ n >= 0 /\ m.mode \in {"ready", "input"} /\ v.wait \in {"stopped", "input"}
         /\ LET t == TailCmd(prog, m, cmds, n) IN
            /\ t # <<>>
            /\ LET c == NormCmd(t[1]) IN
-              m' = Do(m, c, Fuel) /\ v' = VDo(v, c) /\ cmds' = Append(cmds, c) /\ n' = n + 1
+              /\ m' = Do(m, c, Fuel)
+              /\ v' = IF m'.mode = "oom" THEN VOom(v, "not followed") ELSE VDo(v, c)
+              /\ cmds' = Append(cmds, c) /\ n' = n + 1
         /\ UNCHANGED prog
 PNext == PEnter \/ PCmd
 
@@ -31,5 +37,7 @@ PNext == PEnter \/ PCmd
 PRefines == (n >= 0 /\ m.mode # "oom" /\ v.wait # "oom") => Agree(m, v)
 PDebug == PRefines \/ PrintT(<<"DBG", AgreeParts(m, v)>>)
 \* the model of the implementation never leaves its own domain where the manual-level one stays inside
-PInside == (n >= 0 /\ m.mode # "oom") => v.wait # "oom"
+\* (except through a value the value model does not compute -- an inexact number used as a
+\* subscript, say: the two machines meet such values at different points)
+PInside == (n >= 0 /\ m.mode # "oom") => (v.wait # "oom" \/ v.why = "value")
 =============================================================================
